@@ -1200,6 +1200,116 @@ Section FpsiNewtonDft.
 End FpsiNewtonDft.
 
 (* ================================================================== 8. structured multiples *)
+
+(* ---- coefficient reversal at K level: krev m p = X^m p(1/X) for deg p <= m *)
+Section KRev.
+  Context {K : Type} (fk : fieldK K).
+  Local Notation "0" := (k0 fk).
+  Local Notation "1" := (k1 fk).
+  Local Infix "+" := (kadd fk).
+  Local Infix "*" := (kmul fk).
+  Local Notation peq := (peq fk).
+  Local Notation pzero := (pzero fk).
+  Local Notation coeff := (coeff fk).
+  Local Notation padd := (padd fk).
+  Local Notation pmul := (pmul fk).
+  Local Notation pscale := (pscale fk).
+  Local Notation pshift := (pshift fk).
+  Add Field kfield_PolyDivProofs_KRev : (kFT fk).
+  Add Ring polyring_PolyDivProofs_KRev : (poly_ring_theory fk) (setoid (peq_Equivalence fk) (poly_ring_ext fk)).
+
+  Definition krev (m : nat) (p : list K) : list K := map (fun i => coeff p (m - i)) (seq 0 (S m)).
+  Lemma krev_length m p : length (krev m p) = S m.
+  Proof. unfold krev. rewrite map_length, seq_length. reflexivity. Qed.
+  Lemma coeff_krev m p i : coeff (krev m p) i = if (i <=? m)%nat then coeff p (m - i) else 0.
+  Proof.
+    destruct (i <=? m)%nat eqn:E.
+    - apply Nat.leb_le in E. unfold krev, PolySpec.coeff at 1.
+      rewrite (nth_indep _ 0 (coeff p (m - S m))) by (rewrite map_length, seq_length; lia).
+      rewrite (map_nth (fun i => coeff p (m - i)) (seq 0 (S m)) (S m) i), seq_nth by lia. reflexivity.
+    - apply Nat.leb_gt in E. apply coeff_overflow. rewrite krev_length. lia.
+  Qed.
+  Lemma krev_peq m p q : peq p q -> peq (krev m p) (krev m q).
+  Proof. intros [E]. apply peq_intro. intros i. rewrite !coeff_krev, E. reflexivity. Qed.
+  #[global] Instance krev_Proper m : Proper (peq ==> peq) (krev m).
+  Proof. intros p q E. apply krev_peq. exact E. Qed.
+  #[global] Instance pshift_Proper n : Proper (peq ==> peq) (pshift n).
+  Proof. intros p q E. apply pshift_peq. exact E. Qed.
+  Lemma krev_padd m p q : peq (krev m (padd p q)) (padd (krev m p) (krev m q)).
+  Proof. apply peq_intro. intros i. rewrite coeff_padd, !coeff_krev, coeff_padd. destruct (i <=? m)%nat; ring. Qed.
+  Lemma krev_pscale m c p : peq (krev m (pscale c p)) (pscale c (krev m p)).
+  Proof. apply peq_intro. intros i. rewrite coeff_pscale, !coeff_krev, coeff_pscale. destruct (i <=? m)%nat; ring. Qed.
+  Lemma krev_pzero m p : pzero p -> pzero (krev m p).
+  Proof. intros Z i. rewrite coeff_krev. destruct (i <=? m)%nat; [apply Z|reflexivity]. Qed.
+  Lemma krev_shift m k p : (forall i, (m < i)%nat -> coeff p i = 0) -> peq (krev (m + k) p) (pshift k (krev m p)).
+  Proof.
+    intros Hp. apply peq_intro. intros i. rewrite coeff_pshift, !coeff_krev.
+    destruct (i <? k)%nat eqn:E1.
+    - apply Nat.ltb_lt in E1. replace (i <=? m + k)%nat with true by (symmetry; apply Nat.leb_le; lia). apply Hp. lia.
+    - apply Nat.ltb_ge in E1. destruct (i <=? m + k)%nat eqn:E2.
+      + apply Nat.leb_le in E2. replace (i - k <=? m)%nat with true by (symmetry; apply Nat.leb_le; lia). f_equal. lia.
+      + apply Nat.leb_gt in E2. replace (i - k <=? m)%nat with false by (symmetry; apply Nat.leb_gt; lia). reflexivity.
+  Qed.
+  Lemma krev_cons0 m p : peq (krev (S m) (0 :: p)) (krev m p).
+  Proof.
+    apply peq_intro. intros i. rewrite !coeff_krev. destruct (i <=? m)%nat eqn:E.
+    - apply Nat.leb_le in E. replace (i <=? S m)%nat with true by (symmetry; apply Nat.leb_le; lia).
+      replace (S m - i)%nat with (S (m - i)) by lia. apply coeff_cons_S.
+    - apply Nat.leb_gt in E. destruct (i <=? S m)%nat eqn:E2; [|reflexivity].
+      apply Nat.leb_le in E2. replace (S m - i)%nat with O by lia. reflexivity.
+  Qed.
+  Lemma krev_cons m x p : peq (krev (S m) (x :: p)) (padd (krev m p) (pshift (S m) [x])).
+  Proof.
+    apply peq_intro. intros i. rewrite coeff_padd, coeff_pshift, !coeff_krev. destruct (i <=? m)%nat eqn:E.
+    - apply Nat.leb_le in E. replace (i <=? S m)%nat with true by (symmetry; apply Nat.leb_le; lia).
+      replace (i <? S m)%nat with true by (symmetry; apply Nat.ltb_lt; lia).
+      replace (S m - i)%nat with (S (m - i)) by lia. rewrite coeff_cons_S. ring.
+    - apply Nat.leb_gt in E. destruct (i <=? S m)%nat eqn:E2.
+      + apply Nat.leb_le in E2. replace (i <? S m)%nat with false by (symmetry; apply Nat.ltb_ge; lia).
+        replace (S m - i)%nat with O by lia. replace (i - S m)%nat with O by lia. rewrite !coeff_cons_0. ring.
+      + apply Nat.leb_gt in E2. replace (i <? S m)%nat with false by (symmetry; apply Nat.ltb_ge; lia).
+        destruct (i - S m)%nat eqn:E3; [lia|]. rewrite coeff_cons_S, coeff_nil. ring.
+  Qed.
+  Lemma pscale_pshift c n p : peq (pscale c (pshift n p)) (pshift n (pscale c p)).
+  Proof. apply peq_intro. intros i. rewrite coeff_pscale, !coeff_pshift, coeff_pscale. destruct (i <? n)%nat; ring. Qed.
+  (* reversal is multiplicative *)
+  Lemma krev_pmul p : forall q a b, (forall i, (a < i)%nat -> coeff p i = 0) -> (forall i, (b < i)%nat -> coeff q i = 0) ->
+    peq (krev (a + b) (pmul p q)) (pmul (krev a p) (krev b q)).
+  Proof.
+    induction p as [|x p IH]; intros q a b Hp Hq.
+    - cbn [PolySpec.pmul].
+      assert (E1 : peq (krev (a + b) []) []) by (apply peq_nil_pzero, krev_pzero; intros i; apply coeff_nil).
+      assert (E2 : peq (krev a []) []) by (apply peq_nil_pzero, krev_pzero; intros i; apply coeff_nil).
+      rewrite E1, E2. reflexivity.
+    - destruct a as [|a].
+      + (* p = [x] up to peq *)
+        assert (Ep : peq (x :: p) [x]).
+        { apply peq_intro. intros [|i]; [reflexivity|]. rewrite (Hp (S i) ltac:(lia)), coeff_cons_S, coeff_nil. reflexivity. }
+        rewrite (krev_peq (0 + b) _ _ (pmul_peq fk _ _ _ _ Ep (peq_refl fk q))), (krev_peq 0 _ _ Ep).
+        assert (E0 : peq (krev 0 [x]) [x]) by (apply peq_intro; intros [|i]; reflexivity).
+        rewrite E0, <- !(pscale_as_pmul fk). apply krev_pscale.
+      + assert (Hp' : forall i, (a < i)%nat -> coeff p i = 0) by (intros i Hi; apply (Hp (S i)); lia).
+        cbn [PolySpec.pmul]. rewrite krev_padd, krev_pscale.
+        replace (S a + b)%nat with (b + S a)%nat at 1 by lia. rewrite (krev_shift b (S a) q Hq).
+        change (S a + b)%nat with (S (a + b)). rewrite krev_cons0, (IH q a b Hp' Hq), krev_cons.
+        rewrite pscale_pshift, (pmul_padd_distr_r fk), pmul_pshift_const. ring.
+  Qed.
+  Lemma krev_involutive m p : (forall i, (m < i)%nat -> coeff p i = 0) -> peq (krev m (krev m p)) p.
+  Proof.
+    intros Hp. apply peq_intro. intros i. rewrite coeff_krev. destruct (i <=? m)%nat eqn:E.
+    - apply Nat.leb_le in E. rewrite coeff_krev. replace (m - i <=? m)%nat with true by (symmetry; apply Nat.leb_le; lia).
+      f_equal. lia.
+    - apply Nat.leb_gt in E. symmetry. apply Hp. exact E.
+  Qed.
+  (* a list of exactly m + 1 coefficients reversed as a list *)
+  Lemma rev_krev m (p : list K) : length p = S m -> peq (rev p) (krev m p).
+  Proof.
+    intros L. apply peq_intro. intros i. rewrite coeff_krev. destruct (i <=? m)%nat eqn:E.
+    - apply Nat.leb_le in E. unfold PolySpec.coeff. rewrite rev_nth by lia. f_equal. lia.
+    - apply Nat.leb_gt in E. apply coeff_overflow. rewrite rev_length. lia.
+  Qed.
+End KRev.
+
 Section StructuredMultiple.
   Context {F K : Type} (o : fops F) (fk : fieldK K) (ok : F -> Prop) (den : F -> K).
   Hypothesis H : field_ok o fk ok den.
